@@ -159,14 +159,37 @@ def run(ctx):
     ctx.rule("C16.R3", "the whole oneshot() body runs under self._lock; a nested "
              "block (hasattr(self, '_cache')) yields without touching the caches",
              floor=2)
-    body = [s for s in one.node.body if not (isinstance(s, ast.Expr)
-                                             and isinstance(s.value, ast.Constant))]
-    if len(body) == 1 and isinstance(body[0], ast.With) \
-            and dotted(body[0].items[0].context_expr) == "self._lock":
-        ctx.ok("C16.R3", "lock", sample="with self._lock: <everything>")
+    # everything that touches the per-object cache state, and the yield itself,
+    # is lexically inside `with self._lock` (statements that do neither - logging -
+    # may sit anywhere)
+    TOUCH = ("cache_activate", "cache_deactivate", "oneshot_enter", "oneshot_exit")
+
+    def sensitive(x):
+        if isinstance(x, (ast.Yield, ast.YieldFrom)):
+            return True
+        if isinstance(x, ast.Call) and isinstance(x.func, ast.Attribute) and x.func.attr in TOUCH:
+            return True
+        if isinstance(x, ast.Attribute) and dotted(x) == "self._cache":
+            return True
+        if isinstance(x, ast.Call) and dotted(x.func) in ("hasattr", "getattr", "delattr") \
+                and len(x.args) > 1 and isinstance(x.args[1], ast.Constant) \
+                and x.args[1].value == "_cache":
+            return True
+        return False
+    locked = set()
+    for w_ in ast.walk(one.node):
+        if isinstance(w_, ast.With) and any(dotted(i.context_expr) == "self._lock"
+                                            for i in w_.items):
+            for b in w_.body:
+                locked |= {id(x) for x in ast.walk(b)}
+    sens = [x for x in ast.walk(one.node) if sensitive(x)]
+    out = [x for x in sens if id(x) not in locked]
+    if sens and not out:
+        ctx.ok("C16.R3", "lock", sample=f"with self._lock: {len(sens)} cache accesses + yield")
     else:
-        ctx.fail("C16.R3", "lock", one.file, one.node.lineno, one.qual,
-                 "oneshot() no longer holds self._lock around enter/yield/exit")
+        ctx.fail("C16.R3", "lock", one.file, (out[0].lineno if out else one.node.lineno), one.qual,
+                 "oneshot() no longer holds self._lock around enter/yield/exit"
+                 + (f": `{norm_stmt(out[0])[:60]}` is outside the lock" if out else ""))
     cfg = A.cfg(one)
     nested_ok = False
     for n in cfg.nodes:
@@ -176,7 +199,8 @@ def run(ctx):
                 # nothing but the yield in that branch
                 br = [s for s in ast.walk(one.node) if isinstance(s, ast.If)
                       and norm_stmt(s.test) == "hasattr(self, '_cache')"]
-                if br and len(br[0].body) == 1:
+                if br and not any(sensitive(x) and not isinstance(x, (ast.Yield, ast.YieldFrom))
+                                  for b_ in br[0].body for x in ast.walk(b_)):
                     nested_ok = True
     # the activating branch must be the else of that test
     act_nodes = [n for n in cfg.nodes if n.kind == "stmt" for c in calls_in(n.stmt)
